@@ -57,15 +57,22 @@ Definition raw_int (r : raw) (bo width : N) : res N :=
 Definition raw_word (r : raw) (i : N) : res N := idx (rdata r) i.
 Definition raw_word_unchecked (r : raw) (i : N) : res N := idx_unchecked SITE_RAW_WORD (rdata r) i.
 
-Definition raw_set_bit (r : raw) (bo : N) (value : bool) : res raw :=
-  (* assert!(bit_offset < self.len()) *)
-  if negb (bo <? rlen r) then Panic PAssert else
+(* the body of set_bit: only the word index is bounds-checked (`self.data[index]`) *)
+Definition raw_set_bit_body (r : raw) (bo : N) (value : bool) : res raw :=
   let '(index, offset) := split_offset bo in
   let* w := idx (rdata r) index in
   let w1 := N.land w (wnot (N.shiftl 1 offset)) in
   let w2 := N.lor w1 (N.shiftl (if value then 1 else 0) offset) in
   let* d := upd (rdata r) index w2 in
   Ok (mkraw (rlen r) d).
+
+(* `assert!(bit_offset < self.len(), ..)` first (repair 7337be0, finding F13): an offset in the unused part of the
+   last word is refused instead of leaving a set bit beyond len *)
+Definition raw_set_bit (r : raw) (bo : N) (value : bool) : res raw :=
+  if bo <? rlen r then raw_set_bit_body r bo value else Panic PAssert.
+
+(* set_bit as it was before the repair; kept only for C08_set_bit_old_refuted *)
+Definition raw_set_bit_old (r : raw) (bo : N) (value : bool) : res raw := raw_set_bit_body r bo value.
 
 Definition raw_set_int (r : raw) (bo value width : N) : res raw :=
   if width =? 0 then Ok r
